@@ -40,6 +40,8 @@ struct NegServer {
     int redirectPort = 0;
     bool withSession = false;
     bool acceptResume = true;
+    bool enableWithResume = true;        // what <enabled/> of this attempt says about resumption
+    bool lastEnabledWithResume = true;   // what the last <enabled/> actually sent said
     // fault
     long cutAt = -1;           // abort when the event counter reaches this value (-1: never)
     bool cutMidElement = false;
@@ -193,7 +195,8 @@ struct NegServer {
                 bound = QStringLiteral("<bound xmlns='urn:xmpp:bind:0'>");
                 if (kind == Sasl2Bind2Sm) {
                     smId = QStringLiteral("sm%1").arg(++smCounter);
-                    bound += QStringLiteral("<enabled xmlns='urn:xmpp:sm:3' id='%1' resume='true'/>").arg(smId);
+                    bound += QStringLiteral("<enabled xmlns='urn:xmpp:sm:3' id='%1'%2/>").arg(smId, enableWithResume ? QStringLiteral(" resume='true'") : QString());
+                    lastEnabledWithResume = enableWithResume;
                 }
                 bound += QStringLiteral("</bound>");
             }
@@ -211,7 +214,8 @@ struct NegServer {
             }
         } else if (n == u"enable" && ns == u"urn:xmpp:sm:3") {
             smId = QStringLiteral("sm%1").arg(++smCounter);
-            if (send(c, QStringLiteral("<enabled xmlns='urn:xmpp:sm:3' id='%1' resume='true'/>").arg(smId), "enabled"))
+            lastEnabledWithResume = enableWithResume;
+            if (send(c, QStringLiteral("<enabled xmlns='urn:xmpp:sm:3' id='%1'%2/>").arg(smId, enableWithResume ? QStringLiteral(" resume='true'") : QString()), enableWithResume ? "enabled" : "enabled(no-resume)"))
                 established(c, p);
         } else if (n == u"iq") {
             const QString id = e.attribute(QStringLiteral("id"));
@@ -335,6 +339,12 @@ VCHECK("c10.loss", 64)
             s->wasCut = false;
             s->acceptResume = t.b();
         }
+        // from the second attempt on the server may enable stream management without allowing resumption
+        {
+            const bool withResume = attempt == 0 || !t.prob(1, 3);
+            for (NegServer *s : { &main, &second })
+                s->enableWithResume = withResume;
+        }
         int connectedBefore = connectedSignals;
         size_t connsBefore = main.srv.conns.size() + second.srv.conns.size();
         history += " | attempt" + std::to_string(attempt + 1) + (last ? "(uncut)" : cutAfterEstablished ? "(cut after established)" : "(cut@" + std::to_string(cutAt - (cutServer ? cutServer->events : 0)) + (mid ? ",mid-element" : "") + (cutServer == &main && redirect ? ",first-host" : "") + ")");
@@ -422,8 +432,19 @@ VCHECK("c10.loss", 64)
             // outstanding request: completed, or still pending only if the session can be resumed
             // once a session with stream management was established the client may legitimately keep requests for a
             // later resumption, also across attempts that die before negotiation (conservative, hence sound)
-            if ((kind == SaslBindSm || kind == Sasl2Bind2Sm) && cutEstablishedSession)
+            // ... unless the session that was just cut is one the server explicitly enabled WITHOUT resumption in this
+            // attempt (and did not resume): that session ends for good, and with it every request
+            const bool enabledNow = main.trace.find(" >enabled") != std::string::npos || second.trace.find(" >enabled") != std::string::npos || main.trace.find(" >success(sasl2)") != std::string::npos ||
+                second.trace.find(" >success(sasl2)") != std::string::npos;
+            const bool resumedNow = main.trace.find(" >resumed") != std::string::npos || second.trace.find(" >resumed") != std::string::npos;
+            const bool smKind = kind == SaslBindSm || kind == Sasl2Bind2Sm;
+            const bool explicitlyNotResumable = smKind && cutEstablishedSession && enabledNow && !resumedNow && !main.lastEnabledWithResume;
+            if (smKind && cutEstablishedSession && !explicitlyNotResumable)
                 everResumable = true;
+            if (explicitlyNotResumable) {
+                everResumable = false;
+                c.label("cut-session-enabled-without-resume");
+            }
             bool resumable = everResumable;
             for (auto &o : outstanding)
                 if (!resumable)
